@@ -192,6 +192,10 @@ func (fd FieldIDMap) Get(id int32) unsafe.Pointer {
 
 // Set sets the field descriptor for the given id
 func (fd *FieldIDMap) Set(id int32, f unsafe.Pointer) {
+	if id < 0 {
+		// negative ids cannot be stored (and are never looked up: Get returns nil for them)
+		return
+	}
 	if int(id) >= len(fd.m) {
 		len := int(id) + 1
 		tmp := make([]unsafe.Pointer, len)
